@@ -194,6 +194,8 @@ def write_dir(d, files):
     for name, data in files:
         p = os.path.join(d, name)
         os.makedirs(os.path.dirname(p), exist_ok=True)
+        if isinstance(data, tuple) and data[0] == 'mkdir':
+            continue                                 # only the directory itself is wanted (an empty subdirectory)
         if isinstance(data, tuple) and data[0] == 'symlink':
             os.symlink(data[1], p)                   # a directory entry that cannot be opened (dangling link)
         else:
